@@ -274,7 +274,8 @@ static int run_schedule(char *line, FILE *out, const char *logpath)
         }
         if (a == 'f') fork_request[t] = 1;
         sem_post(&go[t]);
-        struct timespec ts; clock_gettime(CLOCK_REALTIME, &ts); ts.tv_sec += 4;
+        /* a fork step includes waiting for the child (up to 8 s when it hangs): give it longer than any other step */
+        struct timespec ts; clock_gettime(CLOCK_REALTIME, &ts); ts.tv_sec += (a == 'f' ? 12 : 4);
         if (sem_timedwait(&parked, &ts) != 0) {
             /* thread t did not reach a scheduling point. Either the code deadlocks, or it blocks on something another PARKED
                thread holds (then the schedule is simply not executable under a cooperative scheduler). Decide by state:
@@ -283,7 +284,9 @@ static int run_schedule(char *line, FILE *out, const char *logpath)
             for (int i = 1; i <= nthreads; i++) for (int q = 0; q < 64; q++) sem_post(&go[i]);
             int finished = 0;
             for (int w = 0; w < 100 && !finished; w++) { usleep(100000); finished = 1; for (int i = 1; i <= nthreads; i++) if (state[i] != ST_DONE) finished = 0; }
-            fprintf(out, finished ? "{\"unschedulable\":%d,\"thread\":%d}\n" : "{\"hang\":%d,\"thread\":%d}\n", stepno, t); fflush(out); _exit(0);
+            fprintf(out, finished ? "{\"unschedulable\":%d,\"thread\":%d,\"children\":[" : "{\"hang\":%d,\"thread\":%d,\"children\":[", stepno, t);
+            { int first = 1; for (int i = 1; i <= nthreads; i++) if (child_status[i]) { fprintf(out, "%s{\"t\":%d,\"status\":%d,\"note\":\"%s\"}", first ? "" : ",", i, child_status[i], child_note[i]); first = 0; } }
+            fprintf(out, "]}\n"); fflush(out); _exit(0);
         }
         char got[256], exp[256]; project(got, sizeof got);
         snprintf(exp, sizeof exp, "%s:%d:%d", strcmp(expl, "-") ? expl : "", ecount, eowner);
@@ -295,7 +298,7 @@ static int run_schedule(char *line, FILE *out, const char *logpath)
     /* let everything finish (a schedule from the specification leaves nobody inside a call) */
     for (int round = 0; round < 2000; round++) {
         int busy = 0;
-        for (int i = 1; i <= nthreads; i++) if (state[i] != ST_DONE) { busy = 1; sem_post(&go[i]); struct timespec ts; clock_gettime(CLOCK_REALTIME, &ts); ts.tv_sec += 4; if (sem_timedwait(&parked, &ts)) { fprintf(out, "{\"hang\":-1,\"thread\":%d}\n", i); fflush(out); _exit(0); } }
+        for (int i = 1; i <= nthreads; i++) if (state[i] != ST_DONE) { busy = 1; sem_post(&go[i]); struct timespec ts; clock_gettime(CLOCK_REALTIME, &ts); ts.tv_sec += 12; if (sem_timedwait(&parked, &ts)) { fprintf(out, "{\"hang\":-1,\"thread\":%d}\n", i); fflush(out); _exit(0); } }
         if (!busy) break;
     }
     char fin[256]; project(fin, sizeof fin);
